@@ -417,7 +417,58 @@ def families():
     F.append(Family('star', 'score', lambda: vcar.STAR(), declared=True, small_weights=True))
     F.append(Family('allocated_score_hare', 'score', lambda: vcar.AllocatedScoreSelector('hare'), declared=True,
                     small_weights=True, scale_free=False))
+    # the score family with the non-default CORRECTIONS of ScoreToSimpleVotes (the options ScoreVoting / MajorityJudgment / STAR pass
+    # through): truncation as an integer count >= 1 and as a Fraction < 1 (the lowest and highest scores of every candidate are
+    # disregarded), min_count (candidates scored by too few voters get bottom_value) and unscored_value (a number, the builtin min).
+    # Not scale-free as configured (counts of votes are absolute / int() of a share) and not `declared`: a truncation that leaves a
+    # candidate without any grade raises ZeroDivisionError / StatisticsError (C08-score-truncation-empty).
+    for nm, mk in SCORE_CORRECTION_FAMILIES.items():
+        F.append(Family(nm, 'score', (lambda mk=mk: mk(vcar)), declared=False, small_weights=True, scale_free=False,
+                        notes='score family with truncation / min_count / unscored_value'))
     return F
+
+
+SCORE_CORRECTION_FAMILIES = {
+    'score_mean_trunc1': lambda vcar: vcar.ScoreVoting(truncation=1),
+    'score_mean_trunc_sixth': lambda vcar: vcar.ScoreVoting(truncation=Fraction(1, 6)),
+    'score_median_trunc2': lambda vcar: vcar.ScoreVoting('median_low', truncation=2),
+    'score_sum0_trunc1': lambda vcar: vcar.ScoreVoting('sum', unscored_value=0, truncation=1),
+    'mj_trunc1': lambda vcar: vcar.MajorityJudgment(truncation=1),
+    'mj_plus_trunc_fifth': lambda vcar: vcar.MajorityJudgment(tie_breaking='plus', truncation=Fraction(1, 5)),
+    'star_trunc1': lambda vcar: vcar.STAR(truncation=1),
+    'score_mean_min3': lambda vcar: vcar.ScoreVoting(min_count=3),
+    'score_mean_unscored_min': lambda vcar: vcar.ScoreVoting(unscored_value='min'),
+    'mj_unscored0_min2': lambda vcar: vcar.MajorityJudgment(unscored_value=0, min_count=2),
+}
+
+
+def gen_score_nonmonotone(rng, m, partial=0.0):
+    """score profiles for the corrections of ScoreToSimpleVotes (truncation, min_count, unscored_value): 4-7 (almost) full ballots with
+    a wide spread of grades in which a candidate's distinct grades first appear in NON-MONOTONE order (high, low, middle, ...), and a
+    close contest: the grades of candidate 1 are a rearrangement of those of candidate 0 with at most one grade moved by one step, so
+    that the trimmed means / medians / sums of the two are equal or one step apart and WHICH grades are disregarded decides.
+    `partial` = probability that a ballot leaves a candidate (other than 0 and 1) unscored."""
+    k = rng.randint(4, 7)
+    w = rng.choice([1, 1, 2, 3])
+    while True:
+        g0 = [rng.randint(0, 5) for _ in range(k)]
+        lv = list(dict.fromkeys(g0))
+        if len(lv) >= 3 and lv != sorted(lv) and lv != sorted(lv, reverse=True):
+            break
+    g1 = rng.sample(g0, k)
+    if rng.random() < 0.6:
+        i = rng.randrange(k)
+        g1[i] = min(5, max(0, g1[i] + rng.choice([-1, 1])))
+    rows = [g0, g1] + [[rng.randint(0, 4) for _ in range(k)] for _ in range(m - 2)]
+    ids = rng.sample(range(m), m)            # which candidate ids hold the two close rows
+    seen = {}
+    for j in range(k):
+        b = sorted([ids[r], rows[r][j]] for r in range(m) if r < 2 or rng.random() >= partial)
+        key = json.dumps(b)
+        seen[key] = seen.get(key, 0) + (w if rng.random() < 0.8 else rng.choice([1, 2]))
+    prof = [[json.loads(kk), str(v)] for kk, v in seen.items()]
+    rng.shuffle(prof)
+    return prof
 
 
 def gen_profile(rng, vtype, m):
